@@ -20,7 +20,7 @@ Shapes2 == {"v4", "big"}
 DsLists == {<<256>>, <<255, 256>>, <<0>>, <<256, 0, 256, 255>>, <<254, 253, 252>>, <<>>, <<257, 300, 0>>, <<256, 255, 254, 253, 252>>, <<1, 2, 3>>}
 SimOps == {[o |-> "add_enr", rec |-> P(i) \o ":1:" \o s] : i \in 1..40, s \in Shapes2}
           \cup {[o |-> "request_in", peer |-> P(i), from |-> f, idlen |-> k, n |-> 7, body |-> [t |-> "findnode", ds |-> d]] : i \in {2, 9, 33}, f \in {"v4", "other"}, k \in {0, 1, 8}, d \in DsLists}
-          \cup {[o |-> "request_in", peer |-> P(i), from |-> f, idlen |-> 2, n |-> 9, body |-> [t |-> "ping", seq |-> 1]] : i \in {3, 9}, f \in {"v4", "other", "v6"}}
+          \cup {[o |-> "request_in", peer |-> P(i), from |-> f, idlen |-> 2, n |-> 9, body |-> [t |-> "ping", seq |-> 1]] : i \in {3, 9}, f \in {"v4", "other", "v6", "lo6"}}
           \cup {[o |-> "established", rec |-> P(i) \o ":1:v4", dir |-> "Out"] : i \in 1..12}
 Sim == /\ DEPTH > 0
        /\ \E k \in {RandomElement({x.o : x \in SimOps})} : \E op \in {RandomElement({x \in SimOps : x.o = k})} : hist' = Append(hist, op)
